@@ -1,5 +1,5 @@
-(** C04 — stronger than the fixed point at RCPT: whatever string a user types, the name derived from it is its own name *)
-From IV Require Import Base.Bytes Model.Addr Proofs.AddrFacts Proofs.AddrScan Proofs.AddrDomain Proofs.AddrNaming.
-Theorem read_name_idempotent : forall (parse_ip : str -> bool), (forall s, parse_ip (lower s) = parse_ip s) -> forall mode a n, extract_mailbox parse_ip mode a = Some n -> extract_mailbox parse_ip mode n = Some n /\ n <> [].
-Proof. exact (fun p H m a n E => conj (AddrNaming.extract_idempotent p H m a n E) (AddrNaming.extract_nonempty p m a n E)). Qed.
+(** C04 — stronger than the fixed point at RCPT: whatever string a user types, the name derived from it is its own name, and non-empty *)
+From IV Require Import Base.Bytes Model.Addr Model.IpLit Model.AddrU Proofs.AddrNaming Proofs.AddrGo Proofs.IpLit.
+Theorem read_name_idempotent : forall mode a n, extract_mailbox go_parse_ip mode a = Some n -> extract_mailbox go_parse_ip mode n = Some n /\ n <> [].
+Proof. exact AddrGo.read_name_idempotent_go. Qed.
 Print Assumptions read_name_idempotent.
